@@ -4,7 +4,7 @@
            soundness, restrictions, once, stability.
    Part C: the faithful model of the code as it is (fixed = false) violates soundness, once and
            restrictions: concrete witnesses evaluated by vm_compute.
-   Part D: honest single-request sessions are admitted (both variants). *)
+   Part D: honest single-request sessions are accepted (both variants). *)
 From AV Require Import Base.Prelude Model.Auth.
 
 Ltac inv H := inversion H; subst; clear H.
@@ -1351,7 +1351,7 @@ Lemma sound_refuted_3 :
 Proof. vm_compute. repeat split; reflexivity. Qed.
 
 (* 4. once: a second USERAUTH_SUCCESS.  alice's password check is pending when guest (no authentication
-      needed) is admitted; the orphaned check then completes *)
+      needed) is let in; the orphaned check then completes *)
 Definition w4 : world :=
   mkWorld (fun b => Some b) (fun _ => true) (fun u => negb (zlist_eqb u guest)) (fun _ => None)
           (fun u p => if zlist_eqb u alice && zlist_eqb p [1] then PTrue else PFalse)
@@ -1396,9 +1396,9 @@ Proof. vm_compute. repeat split; reflexivity. Qed.
 End Witness.
 
 (* ------------------------------------------------------------------------------------------- *)
-(* Part D: a well-formed request with a valid credential, left alone, is admitted (both variants, every
+(* Part D: a well-formed request with a valid credential, left alone, is accepted (both variants, every
    combination of synchronous / asynchronous callbacks) *)
-Section Admit.
+Section Honest.
 Variable w : world.
 Variable sid : bytes.
 
@@ -1444,14 +1444,42 @@ Proof.
   rewrite get_string_sstr by assumption. rewrite H2. reflexivity.
 Qed.
 
-Theorem admit_password fixed ub pw U pw' :
+Ltac norm :=
+  cbv beta iota zeta delta
+    [step run_kont lookup run_begun run_auth fin_done cancel_auth cancel_aid apply_effect do_success do_failure
+     die emit spawn push block first_ready nth_error remove_nth extract drain deliver1 supported pk_supported is_async
+     owned owner_of init fst snd app filter negb andb orb eff e_ko e_co e_res mkind_eqb
+     Z.eqb Pos.eqb Z.add Pos.add Pos.succ Pos.add_carry
+     set_username set_complete set_final set_auth set_next_aid set_next_fid set_conts set_ak_user set_key_opts
+     set_cert_opts set_paused set_inq set_out set_served set_begun set_completed_as
+     username complete final dead auth next_aid next_fid conts ak_user key_opts cert_opts paused inq out served
+     begun completed_as a_id a_user a_kbd].
+
+Lemma drive_S fixed f s :
+  drive w sid fixed (S f) s =
+  match first_ready (conts s) O with
+  | Some i => drive w sid fixed f (step w sid fixed s (Run i))
+  | None => match conts s with
+            | (Some fid, _) :: _ => drive w sid fixed f (step w sid fixed s (Complete fid))
+            | _ => s
+            end
+  end.
+Proof. reflexivity. Qed.
+
+Definition accepted_as (U : user) (s : st) : Prop :=
+  dead s = false /\ complete s = true /\ username s = U /\ completed_as s = [U] /\ out s = [RSuccess] /\
+  conts s = [].
+
+Lemma accepted_via U s0 n fixed :
+  (exists sf, drive w sid fixed n s0 = sf /\ accepted_as U sf) -> accepted_as U (drive w sid fixed n s0).
+Proof. intros (sf & -> & H). exact H. Qed.
+
+Theorem accepts_password fixed ub pw U pw' :
   blen ub < 1024 -> blen pw < 4294967296 ->
   prep w ub = Some U -> prep w pw = Some pw' ->
   needs_auth w U = true -> pw_supported w = true -> pw_check w U pw' = PTrue ->
   let p := 50 :: sstr ub ++ sstr S_CONN ++ sstr S_PASSWORD ++ ([0] ++ sstr pw) in
-  let s := drive w sid fixed 12 (step w sid fixed init (Deliver p)) in
-  dead s = false /\ complete s = true /\ username s = U /\ completed_as s = [U] /\ out s = [RSuccess] /\
-  conts s = [].
+  accepted_as U (drive w sid fixed 12 (step w sid fixed init (Deliver p))).
 Proof.
   intros Hub Hpw HU Hpw' Hna Hsup Hck. cbv zeta.
   set (body := [0] ++ sstr pw).
@@ -1463,18 +1491,77 @@ Proof.
   assert (Hlen : (1024 <=? blen ub) = false) by lia.
   assert (E0 : step w sid fixed init (Deliver p) = proc_request w fixed p init) by reflexivity.
   rewrite E0. unfold proc_request. rewrite Hph, Hlen, conn_refl, HU. cbn [negb complete init username]. rewrite kind_pw.
-  clearbody p body.
+  clearbody p body. apply accepted_via.
   destruct (zlist_eqb U []) eqn:EU.
   - (* the initial, empty user name: no begin_auth *)
     apply zlist_eqb_true in EU. subst U. cbn [negb].
-    destruct fixed, (async_pw w) eqn:Ep;
-      cbn - [auth_start]; rewrite ?Hsup; cbn - [auth_start]; rewrite ?Hs1; cbn; rewrite ?Ep; cbn;
-      repeat split; reflexivity.
+    destruct fixed, (async_pw w) eqn:Ep; eexists; (split; [
+      norm; repeat (rewrite drive_S; norm; rewrite ?Hsup; norm; rewrite ?Hs1; norm; rewrite ?Ep; norm); reflexivity
+    | unfold accepted_as; cbn; repeat split; reflexivity ]).
   - cbn [negb].
-    destruct fixed, (async_begin w) eqn:Eb, (async_pw w) eqn:Ep;
-      cbn - [auth_start]; rewrite ?Eb; cbn - [auth_start]; rewrite ?Hna; cbn - [auth_start];
-      rewrite ?Hsup; cbn - [auth_start]; rewrite ?Hs1; cbn; rewrite ?Ep; cbn;
-      repeat split; reflexivity.
+    destruct fixed, (async_begin w) eqn:Eb, (async_pw w) eqn:Ep; eexists; (split; [
+      norm; repeat (rewrite drive_S; norm; rewrite ?Eb; norm; rewrite ?Hna; norm; rewrite ?Hsup; norm;
+                    rewrite ?Hs1; norm; rewrite ?Ep; norm); reflexivity
+    | unfold accepted_as; cbn; repeat split; reflexivity ]).
 Qed.
 
-End Admit.
+
+Lemma kind_pk : kind_of S_PUBLICKEY = MPk. Proof. reflexivity. Qed.
+
+Lemma firstn_app_exact {A} (a b : list A) : firstn (length (a ++ b) - length b) (a ++ b) = a.
+Proof.
+  rewrite app_length. replace (length a + length b - length b)%nat with (length a) by lia.
+  rewrite firstn_app, Nat.sub_diag, firstn_all. cbn [firstn]. apply app_nil_r.
+Qed.
+
+(* a signed publickey request with a plain key: the data the signature is checked over is
+   string(session id) ++ the request bytes up to and including the key blob *)
+Lemma pk_start_enc es U head alg kb sg k o :
+  blen alg < 4294967296 -> blen kb < 4294967296 -> blen sg < 4294967296 ->
+  decode w kb = BKey k -> ak_validate es k None false = Some o ->
+  verify w k (sstr sid ++ head) sg = true ->
+  pk_start w sid (Some es) U (head ++ sstr sg) ([1] ++ sstr alg ++ sstr kb ++ sstr sg) =
+  (CbNone, mkEff (Some o) None RsSuccess).
+Proof.
+  intros H1 H2 H3 Hd Hv Hs. unfold pk_start. cbn [app get_bool Z.eqb negb].
+  rewrite get_string_sstr by assumption. rewrite get_string_sstr by assumption.
+  replace (sstr sg) with (sstr sg ++ []) at 1 by apply app_nil_r.
+  rewrite get_string_sstr by assumption.
+  rewrite firstn_app_exact, Hd, Hv, Hs. reflexivity.
+Qed.
+
+Theorem accepts_publickey fixed ub alg kb sg U es k o :
+  blen ub < 1024 -> blen alg < 4294967296 -> blen kb < 4294967296 -> blen sg < 4294967296 ->
+  prep w ub = Some U -> zlist_eqb U [] = false -> needs_auth w U = true ->
+  ak_of w (Some U) = Some es -> decode w kb = BKey k -> ak_validate es k None false = Some o ->
+  let head := 50 :: sstr ub ++ sstr S_CONN ++ sstr S_PUBLICKEY ++ [1] ++ sstr alg ++ sstr kb in
+  verify w k (sstr sid ++ head) sg = true ->
+  let s := drive w sid fixed 12 (step w sid fixed init (Deliver (head ++ sstr sg))) in
+  accepted_as U s /\ key_opts s = o /\ cert_opts s = None.
+Proof.
+  intros Hub Halg Hkb Hsg HU EU Hna Hak Hdec Hval head Hver. cbv zeta.
+  set (body := [1] ++ sstr alg ++ sstr kb ++ sstr sg).
+  set (p := head ++ sstr sg).
+  assert (Hp : p = 50 :: sstr ub ++ sstr S_CONN ++ sstr S_PUBLICKEY ++ body).
+  { unfold p, head, body. cbn [app]. repeat (rewrite <- app_assoc; cbn [app]). reflexivity. }
+  assert (Hph : parse_head p = Some (ub, S_CONN, S_PUBLICKEY, body)).
+  { rewrite Hp. apply parse_head_enc; [lia|reflexivity|reflexivity]. }
+  assert (Hs1 : auth_start w sid (Some es) U MPk p body = (CbNone, mkEff (Some o) None RsSuccess)).
+  { cbn [auth_start]. unfold p, body. apply pk_start_enc with (k := k); assumption. }
+  assert (Hlen : (1024 <=? blen ub) = false) by lia.
+  assert (E0 : step w sid fixed init (Deliver p) = proc_request w fixed p init).
+  { rewrite Hp. reflexivity. }
+  rewrite E0. unfold proc_request. rewrite Hph, Hlen, conn_refl, HU. cbn [negb complete init username]. rewrite kind_pk.
+  rewrite EU. cbn [negb].
+  clearbody p body.
+  cut (exists sf, drive w sid fixed 12 (spawn (KFin true MPk p body)
+           (if fixed then set_cert_opts None (set_key_opts ko_empty (set_paused true (set_auth None (cancel_auth (set_username U init)))))
+            else set_username U init)) = sf /\ (accepted_as U sf /\ key_opts sf = o /\ cert_opts sf = None)).
+  { intros (sf & -> & H). exact H. }
+  destruct fixed, (async_begin w) eqn:Eb; eexists; (split; [
+    norm; repeat (rewrite drive_S; norm; rewrite ?Eb; norm; rewrite ?Hna; norm; rewrite ?Hak; norm;
+                  rewrite ?Hs1; norm); reflexivity
+  | unfold accepted_as; cbn; repeat split; reflexivity ]).
+Qed.
+
+End Honest.
